@@ -46,9 +46,17 @@ func (c07Prop) Gen(seed uint64, tier string, i int) Case {
 		}
 		c.Dataset.Normalize()
 		c.Query = Pick(r, c07Twins)
+	} else if r.P(0.08) {
+		// parameters and scalar operands that change from step to step, over series that come and go:
+		// whatever an operator keeps per position of its batch must be renewed for every batch
+		c.Query = Pick(r, c07Params)
 	}
 	return c
 }
+
+var c07Params = []string{`quantile((time() % 100) / 100, m0)`, `quantile by (a) (scalar(sum(m1)) / 1000, m0)`, `topk(1 + scalar(count(m1)) % 3, m0)`,
+	`clamp_min(m0, time() % 7)`, `m0 + time() % 11`, `bottomk by (a) (scalar(count(m0)) % 2 + 1, m1)`, `quantile(scalar(m1{a="x"}) / 100, m0)`, `scalar(sum(m0)) + scalar(count(m1))`,
+	`vector(scalar(max(m0)))`, `scalar(sum(m0))`, `m0 > bool time() % 13`}
 
 var c07Twins = []string{`abs({__name__=~"m.*"})`, `{__name__=~"m0|m1"} * 2`, `timestamp({__name__=~"m.+"})`, `sum by (a, b, c) (abs({__name__=~"m.*"}))`,
 	`clamp_min({__name__=~"m.*"}, 0)`, `1 + {__name__=~"m.*"}`, `{__name__=~"m.*"} > bool 1`, `ceil(-{__name__=~"m.*"})`, `deg({__name__=~"m.*"}) + on(a, b, c) m0`}
@@ -250,6 +258,14 @@ var c09Templates = []string{
 	"timestamp(%s) - on() group_left() count(%s)",
 	"timestamp(%s) + %s",
 	"count_over_time(%s[90s]) + count_over_time(%s[30s])",
+	// nested aggregations of one operator: the outer grouping may name labels the inner one dropped
+	"max by (a, b) (max by (a) (%s)) + %s",
+	"min by (b) (min by (a) (%s)) - min(%s)",
+	"group by (a, b) (group by (b) (%s)) * on(b) group_left max by (b) (%s)",
+	"sum by (a) (sum by (a, b) (%s)) / on(a) sum by (a) (%s)",
+	"%s offset 10m + %s",
+	"%s offset -2m - %s",
+	"%s @ 3000 + %s",
 }
 
 func c09Dataset(w Window) Dataset {
@@ -267,7 +283,7 @@ func c09Dataset(w Window) Dataset {
 				}
 				var sm []Sample
 				phase := int64(len(d.Series)%4) * 3_700 // most series are scraped off the step grid
-				for t := w.StartMs - 300_000; t <= w.EndMs+30_000; t += 30_000 {
+				for t := w.StartMs - 960_000; t <= w.EndMs+150_000; t += 30_000 {
 					sm = append(sm, Sample{T: t - phase, V: v})
 					v += 1
 				}
@@ -304,6 +320,11 @@ func (p c09Prop) Gen(seed uint64, tier string, i int) Case {
 		c.Window = Window{StartMs: 3_700_000, EndMs: 3_700_000}
 	}
 	c.Engine.Procs = Pick(r, []int{2, 4, 8})
+	if r.P(0.3) {
+		// a storage that serves nothing outside [hints.Start, hints.End] of each select, as the TSDB does:
+		// rewritten selects must carry sufficient hints too
+		c.Store.PruneToHints = true
+	}
 	c.Dataset = c09Dataset(c.Window)
 	if r.P(0.6) {
 		// a lone series on the second metric (and sometimes on the first): one-to-one matches on
@@ -447,7 +468,13 @@ var c10Queries = []string{
 	// selectors that are not bound to one metric name: series of different partitions can coincide once the name is dropped
 	`abs({__name__=~"m.*"})`, `-{__name__=~"m0|m1"}`, `rate({__name__=~"m.*"}[2m])`, `max_over_time({__name__=~"m.*"}[1m])`, `sum by (a) (-{__name__=~"m.*"})`,
 	`max({__name__=~"m.*"})`, `count(abs({a=~".+"}))`, `{__name__=~"m.*"} * 2`, `sum(rate({__name__=~"m.+"}[2m]))`,
+	// parameters that read series, directly or inside arithmetic: they must see every partition
+	`topk(scalar(count(m1)) + 1, m0)`, `bottomk(1 * scalar(max(m1)), m0)`, `topk(scalar(count(m1)), m0)`, `topk by (a) (2 - scalar(min(m1)) / scalar(min(m1)), m0)`,
+	`quantile(scalar(count(m1)) / 10, m0)`, `time()`, `vector(time())`, `sum(vector(time()))`, `m0 * time()`, `clamp_min(m0, time() / 1000)`,
 }
+
+var c10Fallback = []string{`round(m0)`, `sum by (a) (round(m0))`, `max_over_time(m0[2m:30s])`, `max(minute(m0))`, `sort(m0)`, `sum(m0) or sum(m1)`,
+	`count(m0 and on(a) m1)`, `sum by (a) (rate(m0[2m:15s]))`, `sgn(m0)`, `label_replace(m0, "d", "$1", "a", "(.*)")`, `count_values("v", m0)`}
 
 func c10Exhaustive() int { return (3 + 9 + 27 + 81 + 243) * 8 } // n=1..5 series, 8 queries, x window kind folded into index
 
@@ -502,7 +529,12 @@ func (c10Prop) Gen(seed uint64, tier string, i int) Case {
 	for range c.Dataset.Series {
 		c.Parts = append(c.Parts, r.Intn(c.NParts))
 	}
-	if r.P(0.6) {
+	if r.P(0.08) {
+		// engines with the fallback enabled (the default configuration): parts of the query that the
+		// engine does not implement are answered by the Prometheus engine, centrally and on the remotes
+		c.Engine.Fallback = true
+		c.Query = Pick(r, c10Fallback)
+	} else if r.P(0.6) {
 		c.Query = Pick(r, c10Queries)
 	} else {
 		extra := []string{}
@@ -533,7 +565,7 @@ func partition(c Case) []Dataset {
 
 func (c10Prop) Check(c Case) Outcome {
 	var o Outcome
-	if ok, err := NativeSupport(c.Query, c.Window); !ok {
+	if ok, err := NativeSupport(c.Query, c.Window); !ok && !c.Engine.Fallback {
 		o.Skipped = "not native: " + fmt.Sprint(err)
 		return o
 	}
@@ -567,7 +599,7 @@ type c11Prop struct{}
 func (c11Prop) ID() string     { return "C11" }
 func (c11Prop) BatchSize() int { return 120 }
 func (c11Prop) Rule() string {
-	return "case = (dataset with 0..40 series, query biased to order-sensitive consumers, window); the baseline (GOMAXPROCS 1, storage order sorted, no perturbation) is compared with runs at GOMAXPROCS 2..16, permuted storage series order, extra non-matching series, yield/sleep perturbation in storage callbacks and at the verif hook points, and plain repetitions; non-trivial iff the baseline result is non-empty or an error; cells = (shards, series mod shards)"
+	return "case = (dataset with 0..40 series, query biased to order-sensitive consumers, window); the baseline (GOMAXPROCS 1, storage order sorted, no perturbation) is compared with runs at GOMAXPROCS 2..16, permuted storage series order (one seeded permutation and the exact reverse), extra non-matching series, yield/sleep perturbation in storage callbacks and at the verif hook points, and plain repetitions; non-trivial iff the baseline result is non-empty or an error; cells = (shards, series mod shards)"
 }
 func (c11Prop) NumCases(tier string) int {
 	if tier == "thorough" {
@@ -588,6 +620,8 @@ var c11Biased = []string{
 	// selectors over several metric names: whether equal label sets are detected must not depend on the sharding
 	`rate({__name__=~"m.*"}[2m])`, `sum by (a) (rate({__name__=~"m.*"}[2m]))`, `abs({__name__=~"m.*"})`, `-{__name__=~"m0|m1"}`, `max_over_time({__name__=~"m.+"}[1m])`,
 	`{__name__=~"m.*"} * 2`, `sum by (a, b, c) (changes({__name__=~"m.*"}[2m]))`,
+	// parameters that change from step to step (workers must pair every step with its own parameter)
+	`quantile(scalar(sum(m1)) / 1000, m0)`, `quantile by (a) ((time() % 100) / 100, m0)`, `topk(1 + scalar(count(m1)) % 3, m0)`, `clamp_min(m0, time() % 7)`,
 }
 
 func (c11Prop) Gen(seed uint64, tier string, i int) Case {
@@ -616,8 +650,11 @@ func (c11Prop) Gen(seed uint64, tier string, i int) Case {
 		c.Query = GenQuery(r.Fork(), g)
 	}
 	if r.P(0.2) {
-		AddTwin(r, &c.Dataset, c.Window, c.Engine.LookbackMs, false, r.P(0.5))
+		AddTwin(r, &c.Dataset, c.Window, c.Engine.LookbackMs, false, r.P(0.6))
 		c.Dataset.Normalize()
+		if r.P(0.6) {
+			c.Query = Pick(r, c07Twins) // the name is dropped: the twins meet in one output series
+		}
 	}
 	c.Procs = []int{2, 3, 4, 6, 8, 10, 12, 16}
 	c.Extra = map[string]any{"perm": float64(1 + r.Uint64()%1000000), "perturb": float64(1 + r.Uint64()%1000000)}
@@ -672,6 +709,7 @@ func (c11Prop) Check(c Case) Outcome {
 	cfgN := c.Engine
 	cfgN.Procs = Pick(NewRng(c.Seed, 111, uint64(c.Index)), []int{4, 8, 16})
 	vs = append(vs, variant{name: "permuted-series-order", cfg: cfgN, so: StoreOpts{PermuteSeed: uint64(perm)}, data: c.Dataset})
+	vs = append(vs, variant{name: "permuted-series-order=reversed", cfg: cfgN, so: StoreOpts{PermuteSeed: ^uint64(0)}, data: c.Dataset})
 	if !hasNamelessSelector(c.Query) {
 		ex := c.Dataset.Clone()
 		for k := 0; k < 7; k++ {
@@ -743,6 +781,9 @@ var c16Shapes = []string{
 	// the same metric selected twice (select merging / selector pooling in play)
 	`%s - on(a, b, c) m0`, `m0 - on(a, b, c) %s`, `sum(%s) / sum(m0)`, `%s + on(a, b, c) %s`, `max by (a) (%s) - on(a) min by (a) (m0)`,
 	`m1 * on(a, b, c) %s`, `count(%s) + count(m1 offset 5m)`,
+	// timestamp() and range functions over a select that is merged with a broader one of the same metric
+	`timestamp(%s) / on(a, b, c) timestamp(m0)`, `timestamp(%s) - on() group_left() count(m0)`, `timestamp(m0) - on(a, b, c) timestamp(%s)`,
+	`rate(%s[2m]) / on(a, b, c) rate(m0[2m])`, `timestamp(%s) + on(a, b, c) m1`, `histogram_quantile(0.5, %s) + on() group_left() 0 * count(h_bucket)`,
 }
 
 func (c16Prop) Gen(seed uint64, tier string, i int) Case {
